@@ -86,6 +86,8 @@ class BaseIntervalScorer(BaseEstimator):
         Updates the fitted model and sets attributes ending in "_".
         """
         X = check_series(X, allow_index_names=True)
+        # A re-fit that fails must not leave the state of the previous fit behind.
+        self._is_fitted = False
         self._X = X
 
         self._fit(X=X, y=y)
